@@ -28,6 +28,9 @@ func propC06(c *Ctx, r *Report) {
 	c.runOperandOrder(r, "order.ir", inPkgs("ir"))
 	r.floor("order.wgsl", orderFloors["wgsl"])
 	r.floor("order.ir", orderFloors["ir"])
+	r.Clauses = append(r.Clauses, wgslNamesClause)
+	c.runWGSLNameTables(r, "names.wgsltable", "wgsl/internal/lower")
+	r.floor("names.wgsltable", 100)
 	r.Clauses = append(r.Clauses, signExtClause)
 	c.runSignExt(r, "conv.signext", inPkgs("wgsl", "ir"))
 	r.floor("conv.signext", 5)
